@@ -169,19 +169,30 @@ def Blk.nil (zero : α) : Blk α := ⟨0, fun _ => zero⟩
 
 def itemWrite (c : Cfg α) (el : Nat → El α) (k : Nat) : W α := ⟨true, (c.item k).off, (el k).bytes.getD (Blk.nil c.zero)⟩
 
+/-- `flush`, in-memory branch for every element (only signal arrays are affected) -/
+def snapPhase (c : Cfg α) (force : Bool) (s : State α) : State α :=
+  { s with el := fun k => snapEl c force k (s.el k) }
+
+/-- `write_header(overwrite=False)`: text and terminator at the current position, seek, XML and terminator; once -/
+def hdrPhase (c : Cfg α) (s : State α) : State α :=
+  if s.hdrWritten then s
+  else { s with ws := hdrWrites c s.pos ++ s.ws, pos := c.xmlOff + c.xml.len + c.term.len, hdrWritten := true }
+
+/-- the elements `write_item` acts on, in table order -/
+def todo (c : Cfg α) (s : State α) : List Nat := (List.range c.n).filter (fun k => pending (s.el k))
+
+/-- `_write_items` over pvp, support, signal details: every pending element is written once at its offset (seek + write) -/
+def itemsPhase (c : Cfg α) (s : State α) : State α :=
+  { s with
+    ws := ((todo c s).map (itemWrite c s.el)).reverse ++ s.ws,
+    pos := match (todo c s).getLast? with
+           | none => s.pos
+           | some k => (c.item k).off + ((s.el k).bytes.getD (Blk.nil c.zero)).len,
+    el := fun k => if k < c.n ∧ pending (s.el k) = true then { s.el k with written := true } else s.el k }
+
 /-- `CPHDWriter1.flush(force)` after `_validate_closed`: hand over signal arrays (in memory), then `write_all_populated_items` -/
 def flushCore (c : Cfg α) (force : Bool) (s : State α) : State α :=
-  let el1 : Nat → El α := fun k => snapEl c force k (s.el k)
-  let ws1 := if s.hdrWritten then s.ws else hdrWrites c s.pos ++ s.ws
-  let pos1 := if s.hdrWritten then s.pos else c.xmlOff + c.xml.len + c.term.len
-  let todo := (List.range c.n).filter (fun k => pending (el1 k))
-  { ws := (todo.map (itemWrite c el1)).reverse ++ ws1,
-    pos := match todo.getLast? with
-           | none => pos1
-           | some k => (c.item k).off + ((el1 k).bytes.getD (Blk.nil c.zero)).len,
-    closed := s.closed,
-    hdrWritten := true,
-    el := fun k => if k < c.n ∧ pending (el1 k) = true then { el1 k with written := true } else el1 k }
+  itemsPhase c (hdrPhase c (snapPhase c force s))
 
 def step (c : Cfg α) (s : State α) : Op α → State α × Out
   | .writePvp i data =>
